@@ -535,3 +535,5 @@ func linkedAt(s *skiplist.Skiplist, p unsafe.Pointer, bound int) int {
 	}
 	return -1
 }
+
+func yieldNow() { runtime.Gosched() }
